@@ -261,11 +261,64 @@ def check_sums(case):
         show=common.show(both))
 
 
+def enum_slash_units(tier):
+    """ Biclosed boxes whose whole domain (codomain) is one slash type, the
+    sides of which may be empty or composite. """
+    sides = [[], [["x", 0]], [["x", 0], ["y", 0]]]
+    for tag in ("o", "u"):
+        for left in sides:
+            for right in sides:
+                yield {"t": [{tag: [left, right]}]}
+    yield {"t": [{"o": [[{"u": [[], [["x", 0]]]}], [["y", 0]]]}]}
+
+
+def check_slash_units(case):
+    from harness import xspec
+    from discopy import biclosed
+    # the slash type itself (an Over / Under), not a tensor of one object
+    t, y = xspec.bob(case["t"][0]), biclosed.Ty("y")
+    unit = biclosed.Ty()
+    f, g = biclosed.Box("f", t, y), biclosed.Box("g", y, t)
+    ident = biclosed.Id
+    for box in (f, g):
+        for what, lhs in (
+                ("left-unit-tensor", ident(unit) @ box),
+                ("right-unit-tensor", box @ ident(unit)),
+                ("left-unit", ident(box.dom) >> box),
+                ("right-unit", box >> ident(box.cod))):
+            eq("biclosed", lhs, box, what, repr(t))
+            require(bool(lhs.dom == box.dom) and bool(box.dom == lhs.dom)
+                    and bool(lhs.cod == box.cod) and bool(box.cod == lhs.cod)
+                    and type(lhs.dom) is type(ident(box.dom).dom),
+                    "C02:" + what + ":types", lambda: "{!r}: {!r} -> {!r}"
+                    .format(box, lhs.dom, lhs.cod))
+        wide = ident(unit) @ box @ ident(y)
+        require(bool(wide.dom[:len(box.dom)] == box.dom)
+                and bool(box.dom == wide.dom[:len(box.dom)]),
+                "C02:slice-of-a-type", lambda: "{!r}[:{}] = {!r}".format(
+                    wide.dom, len(box.dom), wide.dom[:len(box.dom)]))
+        eq("biclosed", (ident(unit) @ box)[::-1][::-1], box,
+           "dagger-involutive", repr(t))
+        dag = (ident(unit) @ box)[::-1]
+        require(bool(dag.dom == box.cod) and bool(dag.cod == box.dom),
+                "C02:dagger-identity-on-objects", lambda: repr(dag))
+        eq("biclosed", (box + (ident(unit) @ box)),
+           type(box).sum([box, box], box.dom, box.cod) if hasattr(
+               type(box), "sum") else box + box, "sum-of-two-spellings",
+           repr(t))
+    sides = case["t"][0]
+    return dict(nt=any(not side for (side,) in [[v] for v in list(
+        sides.values())[0]]), labels=[list(sides)[0]], show=repr(t))
+
+
 core.register("C02", [
     Facet("category", lambda tier: triples(tier, True), check_category,
           n_quick=2400, shards_quick=8, rule=RULE),
     Facet("monoidal", lambda tier: triples(tier, False), check_monoidal,
           n_quick=1000, shards_quick=5, rule=RULE),
+    Facet("slash_units", None, check_slash_units, enum=enum_slash_units,
+          rule="unit laws, slices and dagger for biclosed boxes typed by one "
+          "slash type whose sides are empty, atomic or composite"),
     Facet("sums", sum_cases, check_sums, n_quick=800, shards_quick=4,
           rule="formal sums of 1-3 parallel generated diagrams with a pre-, "
           "post- and side diagram; non-trivial = >= 2 terms and the rule "
